@@ -107,7 +107,8 @@ type frame struct {
 	caller           *frame
 	fn               *ssa.Function
 	block, prevBlock *ssa.BasicBlock
-	env              map[ssa.Value]value // dynamic values of SSA variables
+	env              []value // dynamic values of SSA variables, indexed through info
+	info             *fnInfo
 	locals           []value
 	defers           *deferred
 	result           value
@@ -166,10 +167,60 @@ func (fr *frame) get(key ssa.Value) value {
 			return r
 		}
 	}
-	if r, ok := fr.env[key]; ok {
-		return r
+	if k, ok := fr.info.idx[key]; ok {
+		return fr.env[k]
 	}
 	panic(fmt.Sprintf("get: no value for %T: %v", key, key.Name()))
+}
+
+func (fr *frame) set(key ssa.Value, v value) {
+	fr.env[fr.info.idx[key]] = v
+}
+
+// fnInfo numbers the SSA values of a function so that a frame's environment is a slice.
+type fnInfo struct {
+	idx map[ssa.Value]int
+	n   int
+}
+
+var fnInfos sync.Map // *ssa.Function -> *fnInfo
+
+func infoOf(fn *ssa.Function) *fnInfo {
+	if v, ok := fnInfos.Load(fn); ok {
+		return v.(*fnInfo)
+	}
+	fi := &fnInfo{idx: map[ssa.Value]int{}}
+	add := func(v ssa.Value) {
+		if _, ok := fi.idx[v]; !ok {
+			fi.idx[v] = fi.n
+			fi.n++
+		}
+	}
+	for _, p := range fn.Params {
+		add(p)
+	}
+	for _, fv := range fn.FreeVars {
+		add(fv)
+	}
+	for _, l := range fn.Locals {
+		add(l)
+	}
+	for _, b := range fn.Blocks {
+		for _, in := range b.Instrs {
+			if v, ok := in.(ssa.Value); ok {
+				add(v)
+			}
+		}
+	}
+	if fn.Recover != nil {
+		for _, in := range fn.Recover.Instrs {
+			if v, ok := in.(ssa.Value); ok {
+				add(v)
+			}
+		}
+	}
+	v, _ := fnInfos.LoadOrStore(fn, fi)
+	return v.(*fnInfo)
 }
 
 // poisonExempt lists globals of non-initialised packages whose zero value is their
@@ -244,35 +295,35 @@ func visitInstr(fr *frame, instr ssa.Instruction) continuation {
 		// no-op
 
 	case *ssa.UnOp:
-		fr.env[instr] = unop(fr, instr, fr.get(instr.X))
+		fr.set(instr, unop(fr, instr, fr.get(instr.X)))
 
 	case *ssa.BinOp:
-		fr.env[instr] = binop(i, instr.Op, instr.X.Type(), fr.get(instr.X), fr.get(instr.Y))
+		fr.set(instr, binop(i, instr.Op, instr.X.Type(), fr.get(instr.X), fr.get(instr.Y)))
 
 	case *ssa.Call:
 		fn, args := prepareCall(fr, &instr.Call)
-		fr.env[instr] = call(fr.i, fr, instr.Pos(), fn, args)
+		fr.set(instr, call(fr.i, fr, instr.Pos(), fn, args))
 
 	case *ssa.ChangeInterface:
-		fr.env[instr] = fr.get(instr.X)
+		fr.set(instr, fr.get(instr.X))
 
 	case *ssa.ChangeType:
-		fr.env[instr] = fr.get(instr.X) // (can't fail)
+		fr.set(instr, fr.get(instr.X)) // (can't fail)
 
 	case *ssa.Convert:
-		fr.env[instr] = conv(i, instr.Type(), instr.X.Type(), fr.get(instr.X))
+		fr.set(instr, conv(i, instr.Type(), instr.X.Type(), fr.get(instr.X)))
 
 	case *ssa.SliceToArrayPointer:
-		fr.env[instr] = sliceToArrayPointer(i, instr.Type(), instr.X.Type(), fr.get(instr.X))
+		fr.set(instr, sliceToArrayPointer(i, instr.Type(), instr.X.Type(), fr.get(instr.X)))
 
 	case *ssa.MakeInterface:
-		fr.env[instr] = iface{t: instr.X.Type(), v: fr.get(instr.X)}
+		fr.set(instr, iface{t: instr.X.Type(), v: fr.get(instr.X)})
 
 	case *ssa.Extract:
-		fr.env[instr] = fr.get(instr.Tuple).(tuple)[instr.Index]
+		fr.set(instr, fr.get(instr.Tuple).(tuple)[instr.Index])
 
 	case *ssa.Slice:
-		fr.env[instr] = slice(i, fr.get(instr.X), fr.get(instr.Low), fr.get(instr.High), fr.get(instr.Max))
+		fr.set(instr, slice(i, fr.get(instr.X), fr.get(instr.Low), fr.get(instr.High), fr.get(instr.Max)))
 
 	case *ssa.Return:
 		switch len(instr.Results) {
@@ -338,17 +389,17 @@ func visitInstr(fr *frame, instr ssa.Instruction) continuation {
 		})
 
 	case *ssa.MakeChan:
-		fr.env[instr] = &channel{cap: int(i.concInt(fr.get(instr.Size)))}
+		fr.set(instr, &channel{cap: int(i.concInt(fr.get(instr.Size)))})
 
 	case *ssa.Alloc:
 		var addr *value
 		if instr.Heap {
 			// new
 			addr = new(value)
-			fr.env[instr] = addr
+			fr.set(instr, addr)
 		} else {
 			// local
-			addr = fr.env[instr].(*value)
+			addr = fr.get(instr).(*value)
 		}
 		*addr = zero(mustDeref(instr.Type()))
 
@@ -363,26 +414,26 @@ func visitInstr(fr *frame, instr ssa.Instruction) continuation {
 		for i := range slice {
 			slice[i] = zero(tElt)
 		}
-		fr.env[instr] = slice[:l]
+		fr.set(instr, slice[:l])
 
 	case *ssa.MakeMap:
-		fr.env[instr] = makeMap(instr.Type().Underlying().(*types.Map).Key(), 0)
+		fr.set(instr, makeMap(instr.Type().Underlying().(*types.Map).Key(), 0))
 
 	case *ssa.Range:
-		fr.env[instr] = rangeIter(fr, fr.get(instr.X), instr.X.Type())
+		fr.set(instr, rangeIter(fr, fr.get(instr.X), instr.X.Type()))
 
 	case *ssa.Next:
-		fr.env[instr] = fr.get(instr.Iter).(iter).next()
+		fr.set(instr, fr.get(instr.Iter).(iter).next())
 
 	case *ssa.FieldAddr:
 		p := fr.get(instr.X).(*value)
 		if p == nil {
 			panic(i.rtPanic("invalid memory address or nil pointer dereference"))
 		}
-		fr.env[instr] = &(*p).(structure)[instr.Field]
+		fr.set(instr, &(*p).(structure)[instr.Field])
 
 	case *ssa.Field:
-		fr.env[instr] = fr.get(instr.X).(structure)[instr.Field]
+		fr.set(instr, fr.get(instr.X).(structure)[instr.Field])
 
 	case *ssa.IndexAddr:
 		x := fr.get(instr.X)
@@ -400,13 +451,13 @@ func visitInstr(fr *frame, instr ssa.Instruction) continuation {
 			panic(fmt.Sprintf("unexpected x type in IndexAddr: %T", x))
 		}
 		if sv, ok := idx.(symV); ok {
-			fr.env[instr] = i.symIndexAddr(elems, sv)
+			fr.set(instr, i.symIndexAddr(elems, sv))
 		} else {
 			n := asInt64(idx)
 			if n < 0 || n >= int64(len(elems)) {
 				panic(i.rtPanic(fmt.Sprintf("index out of range [%d] with length %d", n, len(elems))))
 			}
-			fr.env[instr] = &elems[n]
+			fr.set(instr, &elems[n])
 		}
 
 	case *ssa.Index:
@@ -414,25 +465,25 @@ func visitInstr(fr *frame, instr ssa.Instruction) continuation {
 		idx := fr.get(instr.Index)
 		switch x := x.(type) {
 		case array:
-			fr.env[instr] = i.indexElems(x, idx)
+			fr.set(instr, i.indexElems(x, idx))
 		case string:
 			if sv, ok := idx.(symV); ok {
-				fr.env[instr] = i.indexElems(strBytes(x), sv)
+				fr.set(instr, i.indexElems(strBytes(x), sv))
 			} else {
 				n := asInt64(idx)
 				if n < 0 || n >= int64(len(x)) {
 					panic(i.rtPanic(fmt.Sprintf("index out of range [%d] with length %d", n, len(x))))
 				}
-				fr.env[instr] = x[n]
+				fr.set(instr, x[n])
 			}
 		case symStr:
-			fr.env[instr] = i.indexElems(x.b, idx)
+			fr.set(instr, i.indexElems(x.b, idx))
 		default:
 			panic(fmt.Sprintf("unexpected x type in Index: %T", x))
 		}
 
 	case *ssa.Lookup:
-		fr.env[instr] = lookup(i, instr, fr.get(instr.X), fr.get(instr.Index))
+		fr.set(instr, lookup(i, instr, fr.get(instr.X), fr.get(instr.Index)))
 
 	case *ssa.MapUpdate:
 		m := fr.get(instr.Map).(*gmap)
@@ -446,14 +497,14 @@ func visitInstr(fr *frame, instr ssa.Instruction) continuation {
 		m.insert(i, key, fr.get(instr.Value))
 
 	case *ssa.TypeAssert:
-		fr.env[instr] = typeAssert(fr.i, instr, fr.get(instr.X).(iface))
+		fr.set(instr, typeAssert(fr.i, instr, fr.get(instr.X).(iface)))
 
 	case *ssa.MakeClosure:
 		var bindings []value
 		for _, binding := range instr.Bindings {
 			bindings = append(bindings, fr.get(binding))
 		}
-		fr.env[instr] = &closure{instr.Fn.(*ssa.Function), bindings}
+		fr.set(instr, &closure{instr.Fn.(*ssa.Function), bindings})
 
 	case *ssa.Phi:
 		panic("unreachable: phis are processed at block entry")
@@ -681,18 +732,19 @@ func callSSA(i *interpreter, caller *frame, callpos token.Pos, fn *ssa.Function,
 	if depth > i.opts.MaxCallDepth {
 		panic(pathAbort{kind: abortCrash, msg: fmt.Sprintf("stack overflow: call depth exceeds %d (unbounded recursion)", i.opts.MaxCallDepth)})
 	}
-	fr.env = make(map[ssa.Value]value)
+	fr.info = infoOf(fn)
+	fr.env = make([]value, fr.info.n)
 	fr.block = fn.Blocks[0]
 	fr.locals = make([]value, len(fn.Locals))
 	for i, l := range fn.Locals {
 		fr.locals[i] = zero(mustDeref(l.Type()))
-		fr.env[l] = &fr.locals[i]
+		fr.set(l, &fr.locals[i])
 	}
 	for i, p := range fn.Params {
-		fr.env[p] = args[i]
+		fr.set(p, args[i])
 	}
 	for i, fv := range fn.FreeVars {
-		fr.env[fv] = env[i]
+		fr.set(fv, env[i])
 	}
 	for fr.block != nil {
 		runFrame(fr)
@@ -777,7 +829,7 @@ func executePhis(fr *frame) []ssa.Instruction {
 			fr.phitemps = append(fr.phitemps, fr.get(phi.Edges[predIndex]))
 		}
 		for i, phi := range phis {
-			fr.env[phi.(*ssa.Phi)] = fr.phitemps[i]
+			fr.set(phi.(*ssa.Phi), fr.phitemps[i])
 		}
 	}
 	return nonPhis
